@@ -33,6 +33,9 @@ def zones():
         # ... and that are not also currency codes ('5 TMT' is an amount of Turkmen manat, as C11's quantifier says)
         cur = {k.upper() for k in cfg["currencies"]} | {k.upper() for k in cfg["currency_alias"]}
         _Z = sorted((k.upper(), v) for k, v in cfg["timezones"].items() if 2 <= len(k) <= 4 and k.isalpha() and k.upper() not in cur)
+        # the GMT syntax, in particular hour 0 with minutes and both signs
+        _Z += [("GMT-0:30", -30), ("GMT+0:30", 30), ("GMT-00:20", -20), ("GMT+0:45", 45), ("GMT-0:59", -59), ("GMT-1:30", -90), ("GMT+5:45", 345),
+               ("GMT+14", 840), ("GMT-12", -720), ("GMT-9:30", -570)]
     return _Z
 
 
